@@ -40,7 +40,7 @@ def enum_programs(tier):
     r = random.Random(harness.seed() + 5)
     out = []
     strings = ["Hi", "Day", "Night", "A b", "x", "ABCDEF", "0", "Main Battery", "Ünï", "tank-1", "a#b", "q", " lead", "trail ", " both ", "Bay 1 ", "t\\tb"]
-    n = 60 if tier == "thorough" else 10
+    n = 250 if tier == "thorough" else 10
     for i in range(n):
         def pick(e):
             return r.choice(list(en[e]))
@@ -125,7 +125,7 @@ def run(tier: str) -> int:
     rep.assumptions = ASSUMPTIONS
     known = harness.known_for(PROP)
     progs = [(f"fixed:{k}", v, False) for k, v in FIXED.items()]
-    n = 200 if tier == "thorough" else 30
+    n = 500 if tier == "thorough" else 30
     for sp in base.gen_specs(n, None, tier, salt=47):
         progs.append((sp["name"], sp["sources"], False))
     for name, srcs in base.repo_sources():
